@@ -27,6 +27,14 @@ type HarnessSpec struct {
 	Tweak      func(c *HarnessCfg, tier string)
 	PanicOK    bool // panics escaping the harness are not violations (harness handles them)
 	Bound      string
+	// PO runs partial-order queries on a completed path's trace and returns findings (key, detail, witness order)
+	PO func(p *PathResult, po *PO) []POFinding
+}
+
+type POFinding struct {
+	Key    string
+	Detail string
+	Order  []string
 }
 
 type PropertySpec struct {
@@ -150,6 +158,12 @@ func cmdCheck(args []string) int {
 	kf := loadKnown(*verif)
 	rng := rand.New(rand.NewSource(seed))
 
+	var poSolver *Solver
+	defer func() {
+		if poSolver != nil {
+			poSolver.Close()
+		}
+	}()
 	var crossCases []nativeCase
 	var crossExpect []*PathResult
 	var violCases []nativeCase
@@ -284,6 +298,45 @@ func cmdCheck(args []string) int {
 				crossCases = append(crossCases, nativeCase{Harness: h.Name, Values: p.Model})
 				crossExpect = append(crossExpect, p)
 			}
+		}
+		if h.PO != nil {
+			if poSolver == nil {
+				poSolver, _ = NewSolver(Z3Old, 20000)
+			}
+			poStats := map[string]int{}
+			seenPO := map[string]bool{}
+			for _, p := range res.Paths {
+				if p.Outcome != "return" && p.Outcome != "done" {
+					continue
+				}
+				po := NewPO(p.Events, poSolver)
+				finds := h.PO(p, po)
+				poStats["traces"]++
+				poStats["events"] += len(p.Events)
+				poStats["queries"] += po.stats.queries
+				poStats["sat"] += po.stats.sat
+				poStats["unsat"] += po.stats.unsat
+				poStats["unknown"] += po.stats.unknown
+				rep.Obligations += po.stats.queries
+				rep.Discharged += po.stats.unsat
+				rep.Inconclusive += po.stats.unknown
+				for _, f := range finds {
+					key := h.Name + ":po:" + f.Key
+					if seenPO[key] {
+						continue
+					}
+					seenPO[key] = true
+					ev := []Event{}
+					for _, o := range f.Order {
+						ev = append(ev, Event{Kind: o})
+					}
+					rep.Violations = append(rep.Violations, &ViolationReport{Key: key, Harness: h.Name, Detail: f.Detail, Model: p.Model, Confirmed: "symbolic-trace", Events: ev, Decisions: p.Decisions})
+				}
+			}
+			if rep.POStats == nil {
+				rep.POStats = map[string]interface{}{}
+			}
+			rep.POStats[h.Name] = poStats
 		}
 		hs["outcomes"] = outcomes
 		rep.HarnessStats = append(rep.HarnessStats, hs)
